@@ -5,6 +5,9 @@ import os
 import schedcommon as sc
 import vlib
 
+# shrinking budget (replays per representative); VERIF_SHRINK_BUDGET lowers it for regression sweeps over the seeded changes
+SHRINK_BUDGET = int(os.environ.get("VERIF_SHRINK_BUDGET", "120"))
+
 GEOMETRIES = [("tree_huge_1",), ("tree_huge_2",), (), ("tree_huge_8",)]   # () = default TREE_HUGE = 4
 
 
@@ -102,7 +105,7 @@ def collect(ctx, TAG, jobs, suite_desc, driver=None, sample=None, geoms=None, li
                 oracle.append((f.text, sc.replay_lines(f, None, feats)))
         suite["known_finding_hits"] = len(mine) - len(fresh)
         for f in sc.group_failures(fresh, 1)[:limit] + sc.group_failures(bad, 1)[:limit]:
-            shrunk = sc.shrink(ctx, rel, exe, f, budget=120) if f.scenario else None
+            shrunk = sc.shrink(ctx, rel, exe, f, budget=SHRINK_BUDGET) if f.scenario else None
             item = (f.text if not shrunk else shrunk[3].text, sc.replay_lines(f, shrunk, feats))
             (oracle if f.kind == "ORACLE" else corr).append(item)
         if rel and sample and len(ctx.samples) < 8:
